@@ -10,7 +10,7 @@ ID = "C14"
 TITLE = "soll_is_required is equivalent to rewriting SOLL at every level"
 ENGINE = "e1-bounded-enumeration"
 
-MENU5 = ["Muss [1]", "Soll", "Soll [1]", "Soll [3]", "Muss [2] S[1]"]
+MENU5 = ["Muss [1]", "Soll", "Soll [1][902]", "Soll [3]", "Muss [2] S[1]"]
 MENU3 = ["Muss [1]", "s", "Soll [3]"]
 CHAIN_SHAPE = (("G", (("G", (), (("S", ("F",)),)),), ()),)
 BOUNDS = {"quick": {"n5": 4, "n3": 4, "cers": 1}, "thorough": {"n5": 5, "n3": 6, "cers": 2}}
@@ -25,7 +25,8 @@ def describe(tier):
                 "(metamorphic): validate(ahb, flag) == validate(ahb with every SOLL rewritten to MUSS if flag else KANN, flag') for BOTH "
                 "flag' - the whole result list (status, hints, format result, offered values) or the same exception class; through "
                 "validate_deep_anwendungshandbuch, validate_segment_level and validate_segment. The rewriting is done on the reference "
-                "split (R5) of each expression. Non-trivial = trees with SOLL at depth >= 2 (sub group, segment or data element).",
+                "split (R5) of each expression. For the chain family also call SEQUENCES in one context (flag False then True; True, False, "
+                "True): each run equals its single run. Non-trivial = trees with SOLL at depth >= 2 (sub group, segment or data element).",
         "bounds": b,
         "exhaustive": True,
         "assumptions": [],
@@ -94,6 +95,39 @@ def worker_init():
     H.init()
 
 
+def check_sequence(shape, exprs, cer, flags):
+    """several validations awaited one after the other in ONE coroutine (one context): each must equal its own single run"""
+    H.init()
+    I = H.I
+    V = H.V
+    groups = H.model_from(shape, exprs, 0)
+    if not has_soll(groups):
+        return None
+    out = []
+
+    async def seq():
+        res = []
+        for f in flags:
+            try:
+                res.append(("ok", V.observe(await V.validate_deep_anwendungshandbuch(V.build_ahb(groups), f))))
+            except NotImplementedError:
+                res.append(("exc", "NotImplementedError"))
+        return res
+
+    got = I.try_call(lambda: I.run(seq(), H.env(cer)))
+    if got[0] == "exc":
+        return [{"kind": "sequence-raised", "case": {"shape": shape, "exprs": list(exprs), "cer": cer, "flags": list(flags)},
+                 "expected": "results", "observed": got[1], "msg": ""}]
+    for f, g in zip(flags, got[1]):
+        single = V.run_validation(groups, H.env(cer), f)
+        if g != single:
+            out.append({"kind": "flag-vs-rewrite/sequence", "case": {"shape": shape, "exprs": list(exprs), "cer": cer, "flags": list(flags)},
+                        "expected": repr(single)[:300], "observed": repr(g)[:300],
+                        "msg": f"validations with soll_is_required={list(flags)} in one context: the run with {f} differs from a single run"})
+            break
+    return out
+
+
 def _pool_variant(groups, k):
     """give value pools a SOLL entry now and then"""
     from mc.ref import validation as R7
@@ -156,6 +190,9 @@ def run_item(item):
         if vs is None:
             r.stat("skipped_no_soll")
             continue
+        if item["fam"] == "chain":
+            for flags in ((False, True), (True, False, True)):
+                vs += check_sequence(shape, exprs, item["cer"], flags) or []
         r.evaluations += 1
         r.states += 1
         r.transitions += 12
@@ -173,5 +210,7 @@ def _tup(x):
 
 
 def replay(case):
+    if "flags" in case:
+        return check_sequence(_tup(case["shape"]), case["exprs"], case["cer"], tuple(case["flags"])) or []
     vs = check_case(_tup(case["shape"]), case["exprs"], case["cer"], case.get("variant", 0)) or []
     return vs
